@@ -364,8 +364,8 @@ def replay(ctx, case):
 SUBS = [
     Sub("fmt_sweep", run_sweep, check_count, quick=1, thorough=1, shards=14,
         sweep=True),
-    Sub("fmt_hyp", run_hyp, check_count, quick=6000, thorough=200000),
-    Sub("stats", run_stats, check_stats_case, quick=600, thorough=20000),
-    Sub("produced", run_produced, check_produced, quick=80, thorough=2000,
+    Sub("fmt_hyp", run_hyp, check_count, quick=6000, thorough=600000),
+    Sub("stats", run_stats, check_stats_case, quick=600, thorough=60000),
+    Sub("produced", run_produced, check_produced, quick=80, thorough=6000,
         min_per_shard=5),
 ]
